@@ -500,3 +500,141 @@ def _apply(k, a, dom):
     if k == "is_finite":
         return dom.is_finite(a[0])
     raise Unsupported(f"kind {k}")
+
+
+# --------------------------------------------------------------------------- guard-refined evaluation
+
+
+def _nextbelow(v, fmt):
+    return np.nextafter(v, -fmt.inf)
+
+
+def _nextabove(v, fmt):
+    return np.nextafter(v, fmt.inf)
+
+
+def _clip(U, lo=None, hi=None, no_nan=False):
+    nlo = U.lo if lo is None else tmax(U.lo, lo)
+    nhi = U.hi if hi is None else tmin(U.hi, hi)
+    bad = tless(nhi, nlo)
+    return IV(np.where(bad, U.lo, nlo), np.where(bad, U.hi, nhi), U.nan & (not no_nan), U.emp | bad)
+
+
+def _guards(c, pol, val, dom):
+    """Facts that hold when condition term c has truth value pol: list of (term, refined IV).  `val(t)` gives current values."""
+    f = dom.fmt
+    k = c[0]
+    if k == "logical_not":
+        return _guards(c[1], not pol, val, dom)
+    if k == "logical_and":
+        return (_guards(c[1], True, val, dom) + _guards(c[2], True, val, dom)) if pol else []
+    if k == "logical_or":
+        return [] if pol else (_guards(c[1], False, val, dom) + _guards(c[2], False, val, dom))
+    if k == "is_finite":
+        U = val(c[1])
+        if isinstance(U, IV) and pol:
+            return [(c[1], _clip(U, -f.largest, f.largest, no_nan=True))]
+        return []
+    if k in ("lt", "le", "gt", "ge", "eq", "ne"):
+        a, b = c[1], c[2]
+        A, B = val(a), val(b)
+        if not (isinstance(A, IV) and isinstance(B, IV)):
+            return []
+        if k in ("gt", "ge"):
+            a, b, A, B = b, a, B, A
+            k = {"gt": "lt", "ge": "le"}[k]
+        if k == "ne":
+            k, pol = "eq", not pol
+        out = []
+        if k == "lt":
+            if pol:
+                out = [(a, _clip(A, hi=_nextbelow(B.hi, f), no_nan=True)), (b, _clip(B, lo=_nextabove(A.lo, f), no_nan=True))]
+            else:
+                out = [(a, _clip(A, lo=np.where(B.lo == 0, f.nzero, B.lo))), (b, _clip(B, hi=np.where(A.hi == 0, f.zero, A.hi)))]
+        elif k == "le":
+            if pol:
+                out = [(a, _clip(A, hi=np.where(B.hi == 0, f.zero, B.hi), no_nan=True)), (b, _clip(B, lo=np.where(A.lo == 0, f.nzero, A.lo), no_nan=True))]
+            else:
+                out = [(a, _clip(A, lo=_nextabove(np.where(B.lo == 0, f.zero, B.lo), f))), (b, _clip(B, hi=_nextbelow(np.where(A.hi == 0, f.nzero, A.hi), f)))]
+        elif k == "eq":
+            if pol:
+                lo = tmax(np.where(A.lo == 0, f.nzero, A.lo), np.where(B.lo == 0, f.nzero, B.lo))
+                hi = tmin(np.where(A.hi == 0, f.zero, A.hi), np.where(B.hi == 0, f.zero, B.hi))
+                out = [(a, _clip(A, lo, hi, no_nan=True)), (b, _clip(B, lo, hi, no_nan=True))]
+            else:
+                # a != b: puncture an end point of one side when the other side is a single value
+                for (u, U, V) in ((a, A, B), (b, B, A)):
+                    single = (V.lo == V.hi) & ~V.emp
+                    lo = np.where(single & (U.lo == V.lo), _nextabove(np.where(U.lo == 0, f.zero, U.lo), f), U.lo)
+                    hi = np.where(single & (U.hi == V.lo), _nextbelow(np.where(U.hi == 0, f.nzero, U.hi), f), U.hi)
+                    out.append((u, _clip(U, lo, hi)))
+        # constants are not worth overriding
+        return [(t, v) for t, v in out if t[0] != "const"]
+    return []
+
+
+class GuardedEvaluator:
+    """evaluate() with condition-guided refinement: the arms of select(c, a, b) are evaluated under the facts that c (resp.
+    not c) establishes about *terms that occur in the arm* (same term, by identity): a value tested finite is finite in the
+    arm that relies on it, u < v bounds u and v by each other.  Sound: a fact is only used in the arm it guards."""
+
+    def __init__(self, root_terms, env, dom):
+        self.env, self.dom = env, dom
+        self.contains = {}
+        self.roots = root_terms
+
+    def _contains(self, t, g):
+        key = (t, g)
+        r = self.contains.get(key)
+        if r is None:
+            if t is g:
+                r = True
+            elif t[0] in ("sym", "const"):
+                r = False
+            else:
+                r = any(self._contains(a, g) for a in t[1:])
+            self.contains[key] = r
+        return r
+
+    def run(self, term):
+        return _Ctx(self, None, {}).value(term)
+
+
+class _Ctx:
+    def __init__(self, ev, parent, ov):
+        self.ev, self.parent, self.ov = ev, parent, ov
+        self.memo = {}
+
+    def value(self, t):
+        v = self.ov.get(t)
+        if v is not None:
+            return v
+        v = self.memo.get(t)
+        if v is not None:
+            return v
+        if self.parent is not None and not any(self.ev._contains(t, g) for g in self.ov):
+            return self.parent.value(t)
+        k = t[0]
+        dom = self.ev.dom
+        if k == "sym":
+            v = self.ev.env[t[1]]
+        elif k == "const":
+            v = _const(t[1], dom)
+        elif k == "select":
+            C = self.value(t[1])
+            arms = []
+            for arm, pol in ((t[2], True), (t[3], False)):
+                facts = [(g, iv) for g, iv in _guards(t[1], pol, self.value, dom) if self.ev._contains(arm, g)]
+                if facts:
+                    ov = {}
+                    for g, iv in facts:
+                        ov[g] = iv if g not in ov else _clip(ov[g], iv.lo, iv.hi)
+                    arms.append(_Ctx(self.ev, self, ov).value(arm))
+                else:
+                    arms.append(self.value(arm))
+            v = dom.select(C, arms[0], arms[1])
+        else:
+            a = [self.value(x) for x in t[1:]]
+            v = _apply(k, a, dom)
+        self.memo[t] = v
+        return v
